@@ -1139,6 +1139,9 @@ class Inliner:
                         for a2 in s2.names:
                             x_top.setdefault((a2.asname or a2.name).split(".")[0], s2)
                 m_names = have | {(a2.asname or a2.name).split(".")[0] for s2 in m.tree.body if isinstance(s2, (ast.Import, ast.ImportFrom)) for a2 in s2.names}
+                m_created = {t.id for s2 in m.tree.body if isinstance(s2, ast.Assign) and isinstance(s2.value, (ast.Call, ast.Dict, ast.List, ast.Set))
+                             for t in s2.targets if isinstance(t, ast.Name)}
+                duplicated_state = False
                 while todo:
                     q = todo.pop()
                     if id(q) in seen_ids:
@@ -1146,10 +1149,17 @@ class Inliner:
                     seen_ids.add(id(q))
                     copied.append(q)
                     for n in ast.walk(q):
+                        # an object the moved code uses that BOTH modules create for themselves (`NONE_OBJECT = NoneObject()` here and there): the move
+                        # duplicated state - putting the code back would silently re-unite it, so this import is left as it is (the rules then fail closed)
+                        if isinstance(n, ast.Name) and isinstance(n.ctx, ast.Load) and n.id in x_top and n.id in m_created and isinstance(x_top[n.id], ast.Assign) \
+                                and isinstance(x_top[n.id].value, (ast.Call, ast.Dict, ast.List, ast.Set)):
+                            duplicated_state = True
                         if isinstance(n, ast.Name) and isinstance(n.ctx, ast.Load) and n.id in x_top and n.id not in m_names:
                             dep = x_top[n.id]
                             if id(dep) not in seen_ids and not isinstance(dep, (ast.FunctionDef, ast.ClassDef)):
                                 todo.append(dep)
+                if duplicated_state:
+                    continue
                 order = {id(s2): k for k, s2 in enumerate(x.tree.body)}
                 copied.sort(key=lambda q: order.get(id(q), 0))
                 rename = {a: b for _, (a, b) in new_stmts if a != b}
